@@ -126,6 +126,9 @@ class KeyAction(object):
 
             with self.usage(key, kwargs.get('user', None)) as _key:
                 self.check_attributes(key)
+                # the component that was picked to do the work has a lock state of its own
+                if _key is not key:
+                    self.check_attributes(_key)
 
                 # do the thing
                 return action(_key, *args, **kwargs)
